@@ -25,22 +25,14 @@ Print Assumptions C12_noninterference.
 (* the key directory.  [predir]: the directory already existed, mode 0o755 and not chown'ed, when the agent
    first started; [co]: the environment lets chown(key dir, root, root) succeed (it does not for an agent
    without CAP_CHOWN on somebody else's directory; acl_directory then logs and still sets the mode).
-   Histories may also REMOVE the key directory while the agent runs ([RemoveKeyDir]). *)
+   Histories may also REMOVE the key directory while the agent runs ([RemoveKeyDir]); the provision deadline
+   then re-creates it with default permissions.  Since commit fd6287b (repair of F12) the key folder is
+   re-created if gone and restricted again right before every key store, so the statements hold for EVERY
+   history, with no class hypothesis. *)
 
-(* F12 (known finding): the statement is refuted when the directory is removed and the provision deadline
-   re-creates it before the next start: write_provision_state's try_create_folder makes it 0o755, nothing
-   restricts it, and the next key is stored there *)
-Theorem C12_keydir_recreated_refuted :
-  exists h : history, KnownClass_keydir_recreated_unrestricted h = true
-    /\ creates_restricted true (init_dir false) (sys_trace current false true h) = false.
-Proof. exact keydir_recreated_refuted. Qed.
-Print Assumptions C12_keydir_recreated_refuted.
-
-(* outside that class, in EVERY environment: the mode is 0o700 at every creation of a key file inside the key
-   directory (mkdir resets it; restarts redo the chmod; a removed directory gets no key file until the restart) *)
+(* in EVERY environment and history: the mode is 0o700 at every creation of a key file inside the key directory *)
 Theorem C12_dir_mode_restricted_at_create :
   forall (v : variant) (predir co : bool) (h : history) (pre post : list sys),
-  KnownClass_keydir_recreated_unrestricted h = false ->
   sys_trace v predir co h = pre ++ Create FKeyFile :: post -> mode_restricted (dir_after predir pre) = true.
 Proof. exact dir_mode_restricted_at_create. Qed.
 Print Assumptions C12_dir_mode_restricted_at_create.
@@ -48,20 +40,25 @@ Print Assumptions C12_dir_mode_restricted_at_create.
 (* where chown can succeed the directory is root:root AND 0o700 at every such creation *)
 Theorem C12_dir_restricted_at_create :
   forall (v : variant) (predir : bool) (h : history) (pre post : list sys),
-  KnownClass_keydir_recreated_unrestricted h = false ->
   sys_trace v predir true h = pre ++ Create FKeyFile :: post -> restricted (dir_after predir pre) = true.
 Proof. exact dir_restricted_at_create. Qed.
 Print Assumptions C12_dir_restricted_at_create.
 
 (* DESIGN form: the chmod 0o700 (= 448) precedes every creation of a key file in the key directory, in every
-   environment; so does the chown root:root wherever it can succeed *)
+   environment and history; so does the chown root:root wherever it can succeed *)
 Theorem C12_dir_restricted_first :
   forall (v : variant) (predir co : bool) (h : history) (pre post : list sys),
-  KnownClass_keydir_recreated_unrestricted h = false ->
   sys_trace v predir co h = pre ++ Create FKeyFile :: post ->
   In (Chmod 448) pre /\ (co = true -> In (Chown 0 0) pre).
 Proof. exact dir_restricted_first. Qed.
 Print Assumptions C12_dir_restricted_first.
+
+(* the former F12 witness (directory removed, re-created by the provision deadline, next key stored): the key
+   file is now created after a fresh chown + chmod of the re-created directory *)
+Example C12_keydir_recreated_now_restricted :
+  map sys_code (sys_trace current false true witness_keydir_recreated)
+  = [(0, 0); (1, 0); (2, 448); (1, 0); (2, 448); (3, 0); (4, 0); (0, 0); (3, 1); (3, 1); (1, 0); (2, 448); (3, 0)]%N.
+Proof. exact keydir_recreated_now_restricted. Qed.
 
 (* ---- what the two repairs prevent (F6; both were replayed on the real code before the repairs) ---- *)
 
@@ -133,11 +130,11 @@ Example C12_nonvacuous :
                        StatusTick; ProvisionQuery true; ProvisionTimeup])
     = [(KeyFile, [1%N; 2%N])]
   /\ map sys_code (sys_trace unfixed false true [Poll (SOk true None 1) (KOk 1 true) AOk; ProvisionTimeup; Restart; Poll (SOk true None 1) (KOk 2 true) AOk])
-    = [(0, 0); (1, 0); (2, 448); (3, 0); (3, 1); (3, 1); (1, 0); (2, 448); (3, 0)]%N
+    = [(0, 0); (1, 0); (2, 448); (1, 0); (2, 448); (3, 0); (3, 1); (3, 1); (1, 0); (2, 448); (1, 0); (2, 448); (3, 0)]%N
   /\ map sys_code (sys_trace unfixed true true [Poll (SOk true None 1) (KOk 1 true) AOk])
-    = [(1, 0); (2, 448); (3, 0)]%N
+    = [(1, 0); (2, 448); (1, 0); (2, 448); (3, 0)]%N
   /\ map sys_code (sys_trace current true false [Poll (SOk true None 1) (KOk 1 true) AOk])
-    = [(2, 448); (3, 0)]%N
+    = [(2, 448); (2, 448); (3, 0)]%N
   /\ vector (run repaired witness_not_hex) = []
   /\ vector (run repaired witness_body_malformed) = [].
 Proof. exact nonvacuous_examples. Qed.
